@@ -141,14 +141,24 @@ def run(prop, extract):
 
     with ThreadPoolExecutor(WORKERS) as ex:
         done = list(ex.map(job, range(len(vs))))
-    # the rule evaluation itself is sequential: the analysis keeps per-process caches
+    # rule evaluation: one process per variant (the analysis keeps per-process caches), 12 at a time
+    from concurrent.futures import ProcessPoolExecutor
+    jobs = []
     for k, path, err in done:
         m = vs[k]
         if path is None:
             results[k] = {"name": m["name"], "status": err[0], "why": err[1]}
-            continue
-        try:
-            results[k] = judge(m, prop, path)
-        except Exception as e:
-            results[k] = {"name": m["name"], "status": "fail", "why": "selftest crashed: %r" % (e,)}
+        else:
+            jobs.append((k, m, prop, path))
+    with ProcessPoolExecutor(12) as ex:
+        for k, res in ex.map(_judge_job, jobs):
+            results[k] = res
     return results
+
+
+def _judge_job(a):
+    k, m, prop, path = a
+    try:
+        return k, judge(m, prop, path)
+    except Exception as e:
+        return k, {"name": m["name"], "status": "fail", "why": "selftest crashed: %r" % (e,)}
